@@ -345,6 +345,23 @@ CHECKS = {
          "(quinn-proto, UDP sockets, the connection worker) are NOT covered and not claimed; nor are the stream-level futures of "
          "send_stream.rs / recv_stream.rs (their containers are covered by (a); that each checks state.error before registering "
          "was read, not executed), endpoint close, or the worker's reaction to the close."),
+ "C18": dict(
+    engine="mirsym",
+    technique="symbolic execution of the MIR of the dispatcher's worker loop and task wrapper (two async blocks run as coroutines) "
+              "against an abstract channel / runtime / oneshot whose answers are enumerated exhaustively within the bounds; z3 "
+              "discharges the (propositional) obligations",
+    category="model_checking",
+    text="Bounded model checking over the real MIR of what compio-dispatcher's own code contributes on ONE worker (<= 3/4 tasks, "
+         "<= 2/3 Pending answers, both modes): every task taken from the channel is started exactly once, in the order taken; in "
+         "sequential mode the channel is not asked for the next task and no task is started while the previous one has not "
+         "finished, nothing is detached, and every started task has finished when the worker leaves its loop; in concurrent mode "
+         "each task is detached right after it was started; the worker leaves its loop exactly when the channel reports closed and "
+         "drained. Task wrapper: the dispatched closure is called exactly once, its result is sent exactly once on the task's own "
+         "oneshot sender after the future completed, and a vanished receiver does not fail the task.",
+    design_ref="DESIGN.md §1 C18",
+    note="Partial by construction, and the smaller part: that a queued closure reaches exactly one of several workers is the MPMC "
+         "channel's (flume) guarantee, and everything across OS threads — concurrent dispatch, join dropping the sender and joining "
+         "the threads, panic propagation, the receiver reporting cancellation after an early join — is NOT covered and not claimed."),
  "C19": dict(
     engine="mirsym",
     technique="symbolic execution of the MIR of compio-actor's process group (ProcessGroup::{send, join}, Membership::drop, "
@@ -389,7 +406,6 @@ CHECKS = {
 }
 
 NOT_APPLICABLE = {
- "C18": "property of OS threads, MPMC channels and whole runtimes; Kani has no threads and a MIR-level model would have to summarise everything the property is about (DESIGN.md §1, end)",
  "C20": "fork/exec/pidfd/wait: kernel and child-process behaviour (DESIGN.md §1, end)",
 }
 
